@@ -36,10 +36,19 @@ class BaseGotranODECodePrinter(StrPrinter):
             ">": "Gt",
             ">=": "Ge",
             "==": "Eq",
-            "!=": "Ne",
         }
+        if expr.rel_op == "!=":
+            # There is no 'Ne' in the grammar
+            return f"Not(Eq({lhs}, {rhs}))"
         relop = relop2str[expr.rel_op]
         return f"{relop}({lhs}, {rhs})"
+
+    def _print_Not(self, expr):
+        return f"Not({self._print(expr.args[0])})"
+
+    def _print_Exp1(self, expr):
+        # There is no constant 'E' in the grammar
+        return "exp(1)"
 
     def _print_Or(self, expr):
         return f"Or({', '.join(self._print(a) for a in expr.args)})"
